@@ -25,7 +25,7 @@ RULE = ('cases = well-formed chart instrumented with data-only probes (contracts
         'postcondition/invariant is active, a history memory is set, or a delayed event is '
         'pending; distinct = sha1(chart, history, b, method).')
 ASSUMPTIONS = ['the execution context holds plain data only (lists, dicts, ints), as pickling '
-               'requires', 'no listeners are attached']
+               'requires', 'no listeners other than a bound property statechart are attached']
 MIX = (('sibling', 30), ('other', 15), ('orthin', 10), ('anc', 15), ('desc', 5), ('hist', 15),
        ('internal', 10))
 
@@ -54,7 +54,9 @@ def strategy(tier):
                 # inner_hist: transitions from a child of P to P's own history state (C18
                 # quantifies over every statechart, not only the well-formed ones of DESIGN.md 2):
                 # the memory of the last exit is read while P stays active
-                'inner_hist': draw(st.booleans())}
+                'inner_hist': draw(st.booleans()),
+                # watchdog: a property statechart that fails after that much time is bound
+                'watchdog': draw(st.sampled_from([None, None, 0.75, 1.5, 3, 6]))}
     return cases()
 
 
@@ -83,8 +85,23 @@ def apply_op(d, op, sig, payload=False):
                     'context': clean(d.ctx)})
 
 
-def fresh(spec):
+def watchdog(D):
+    """property statechart that fails once D time units have passed (time-dependent, no code)"""
+    from sismic.model import Statechart, CompoundState, BasicState, FinalState, Transition
+    p = Statechart('watchdog')
+    p.add_state(CompoundState('r', initial='a'), None)
+    p.add_state(BasicState('a'), 'r')
+    p.add_state(FinalState('f'), 'r')
+    p.add_transition(Transition('a', 'f', guard='after(%r)' % D))
+    return p
+
+
+def fresh(spec, prop=None):
     d = Drive(spec, ignore_contract=False)
+    if prop:
+        # a bound property statechart (its interpreter and synchronised clock are part of what
+        # is pickled / copied)
+        d.interp.bind_property_statechart(watchdog(prop))
     ncond = sum(len(o.get('c_' + k) or []) for o in spec['states'] + spec['transitions']
                 for k in ('pre', 'post', 'inv'))
     d.ctx['cv'].update({c: True for c in range(1, ncond + 1)})
@@ -138,7 +155,10 @@ def oracle(case):
             if k % 3 == 2 and x['kind'] not in ('shallow', 'deep'):
                 x['on_exit'] = S
         labels['runs where one text is both executed and evaluated'] = 1
-    d0 = fresh(spec)
+    prop = case.get('watchdog')
+    if prop:
+        labels['runs with a bound time-out property statechart'] = 1
+    d0 = fresh(spec, prop)
     ref = []
     steps_before = []     # number of step signatures produced before op index b
     interesting = []
@@ -157,7 +177,7 @@ def oracle(case):
         if b >= len(ops):
             continue
         for method in ('pickle', 'deepcopy'):
-            d = fresh(spec)
+            d = fresh(spec, prop)
             sig = []
             for op in ops[:b]:
                 apply_op(d, op, sig, payload)
